@@ -2,6 +2,7 @@ WEAVE = [dict(file='include/mpmc_fifo.h', parse='test/test_mpmc_fifo.c', fns=['m
          dict(file='include/hazard_pointer.h', parse='test/test_mpmc_fifo.c', fns=['hazard_pointer_using', 'hazard_pointer_done_using'], split_rmw=False)]
 GROUPS = [
     dict(name='fifo_trypop', tu='fifo.c', harness='h_trypop', mode='H', loop_contracts=True, defs=['-DVERIF_LOOP_FLAG'], functions=['mpmc_fifo_trypop', 'hazard_pointer_using', 'hazard_pointer_done_using'], unwind=6, exact_unwind=True, timeout=900),
+    dict(name='fifo_init', tu='fifo.c', harness='h_init', mode='H', defs=['-DVERIF_LOOP_FLAG'], functions=['mpmc_fifo_init'], unwind=2, exact_unwind=True),
     dict(name='fifo_push', tu='fifo.c', harness='h_push', mode='H', loop_contracts=True, defs=['-DVERIF_LOOP_FLAG'], functions=['mpmc_fifo_push', 'hazard_pointer_using', 'hazard_pointer_done_using'], unwind=6, exact_unwind=True, timeout=900),
 ]
 # the reclamation layer the FIFO's safety rests on (anchors: hazard_pointer.h, hazard_pointer.c): C14's obligation groups, run here as well
